@@ -116,6 +116,7 @@ HISTORIES = [
     ['train', 'apply', 'serve~race', 'perftrack', 'train', 'apply~race', 'apply@1', 'perftrack'],
     ['train', 'train~window', 'serve', 'apply@1', 'perftrack@1', 'train', 'apply', 'serve'],
     ['train', 'perftrack', 'apply', 'train', 'train@1', 'apply', 'serve', 'apply@2'],
+    ['train*10', 'apply', 'train', 'serve', 'apply@9', 'perftrack'],  # more than nine generations
 ]
 
 
@@ -157,6 +158,8 @@ def run_history(ctx, label, expr, history, schedule, index):
         for step, action in enumerate(history):
             kind, _, explicit = action.partition('@')
             kind, _, race = kind.partition('~')
+            kind, _, times = kind.partition('*')
+            times = int(times) if times else 1
             generation = int(explicit) if explicit else None
             if kind != 'train' and not model:
                 continue
@@ -169,6 +172,8 @@ def run_history(ctx, label, expr, history, schedule, index):
                    'scheduler': scheduler_for(ctx, index, step),
                    'hashseed': core.subseed(ctx.seed, index, step) % 1000, 'entries': [[1000 * index + step]],
                    'epoch': f'e{step}'}
+            if times > 1:
+                job['repeat'] = times
             epoch = job['epoch']
             racer = None
             if race == 'window' and model:
@@ -214,6 +219,32 @@ def run_history(ctx, label, expr, history, schedule, index):
                 snapshots = [d for d in decoded if isinstance(d, tuple)]
                 epochs[g['key']] = {d[1] for d in snapshots}
                 gens[g['key']] = [d[2] if isinstance(d, tuple) else d for d in decoded]
+            if kind == 'train' and times > 1:
+                # a long history in one go (the same data every time): generation after generation resumes from the one before
+                ctx.count('long_histories')
+                for _ in range(times):
+                    last = max(model) if model else 0
+                    prev = {}
+                    for f in (model[last] if last else ()):
+                        if f.op == 'fit' and f.args[0] in persistent:
+                            prev.setdefault(f.args[0], []).append(f)
+                    memo = {}
+                    fits = [symbolic.stamp(f, epoch, memo) for f in exprgen.denote(expr, x, y, xa, prev=prev).fits]
+                    new = last + 1
+                    want = collections.Counter(f for f in fits if f.op == 'fit' and f.args[0] in persistent)
+                    got = collections.Counter(gens.get(new, ['<no such generation>']))
+                    ctx.count('states_compared', sum(want.values()))
+                    if want != got:
+                        ctx.violation('long-history-state-binding', f'generation {new} of {times} trainings in a row (generations listed: '
+                                      f'{sorted(gens)}): missing {[t.show(4) for t in (want - got)][:2]} unexpected '
+                                      f'{[t.show(4) if hasattr(t, "show") else t for t in (got - want)][:2]} [{sig}]', step_witness)
+                        return
+                    persisted_before[new] = gens[new]
+                    model[new] = fits
+                if sorted(gens) != list(range(1, max(model) + 1)):
+                    ctx.violation('train-generation-numbering', f'generations {sorted(gens)} after {max(model)} trainings', step_witness)
+                    return
+                continue
             if kind == 'train':
                 last = max(model) if model else 0
                 prev = {}
